@@ -322,9 +322,20 @@ class SimFS(object):
 def gen_inputs(r, n_mut=None, n_samples=None, clustered=None):
     n_mut = n_mut if n_mut is not None else r.choice([1, 2, 3, 4, 5, 6, 8])
     n_samples = n_samples if n_samples is not None else r.choice([1, 1, 2, 3])
-    samples = ["S%d" % (i + 1) for i in range(n_samples)]
+    scheme = r.choice(["S", "S", "rev", "num"])
+    if scheme == "S":
+        samples = ["S%d" % (i + 1) for i in range(n_samples)]
+    elif scheme == "rev":
+        samples = ["S10", "S2", "S1"][:n_samples]  # string order differs from numeric / file order
+    else:
+        samples = ["%d" % (7 * (i + 1)) for i in range(n_samples)]  # numeric-looking sample ids
     tc = {s: round(r.uniform(0.4, 1.0), 2) for s in samples}
     rows = []
+    id_scheme = r.choice(["m", "m", "m", "gene"])
+
+    def mut_name(m):
+        return "m%02d" % m if id_scheme == "m" else "chr%d:%d:A>T" % (1 + m % 3, 1000 * (10 - m))  # ids whose sort order is not the creation order
+
     style = r.choice(["normal", "normal", "identical", "depth0"])
     base = None
     for m in range(n_mut):
@@ -341,7 +352,7 @@ def gen_inputs(r, n_mut=None, n_samples=None, clustered=None):
                 ref = depth - alt
                 if base is None:
                     base = (ref, alt, major, minor)
-            rows.append({"mutation_id": "m%02d" % m, "sample_id": s, "ref_counts": ref, "alt_counts": alt, "major_cn": major,
+            rows.append({"mutation_id": mut_name(m), "sample_id": s, "ref_counts": ref, "alt_counts": alt, "major_cn": major,
                          "minor_cn": minor, "normal_cn": 2, "tumour_content": tc[s], "error_rate": 0.001})
     cols = ["mutation_id", "sample_id", "ref_counts", "alt_counts", "major_cn", "minor_cn", "normal_cn"]
     if r.random() < 0.6:
@@ -356,7 +367,7 @@ def gen_inputs(r, n_mut=None, n_samples=None, clustered=None):
         ids = r.sample(range(0, 12), k)
         cl = {}
         for m in range(n_mut):
-            cl["m%02d" % m] = ids[m % k] if m < k else r.choice(ids)
+            cl[mut_name(m)] = ids[m % k] if m < k else r.choice(ids)
         crow = []
         for m, c in cl.items():
             for s in samples:
